@@ -9,7 +9,10 @@
 //                        k = t TaskSet, l ConcurrentTaskSet(kLightweight), h ConcurrentTaskSet(kHeavy)      (schedule)
 //                        k = q / r : ConcurrentTaskSet light / heavy with ForceQueuingTag
 //                        k = f future = dispenso::async(pool, body)   k = a future with std::launch::async (forced onto the queue)
+//                        k = d / D : Future<void>(body, pool, kNotAsync / std::launch::async, std::launch::deferred)
+//                        k = n / N : Future<void>(body, pool, kNotAsync / std::launch::async, dispenso::kNotDeferred)
 //     j<name>          wait on the own join <name>: set.wait() / future.wait()
+//     g<name>          same through Future::get() (sets: wait())
 //     u<name>          wait on a future created EARLIER by an enclosing body (captured by value when this body was spawned)
 //     p<n>[ops]        dispenso::parallel_for(0, n, body) (waiting): every index runs ops
 //   At the end of a body every own join is waited for (structured programs: a body outlives nothing it spawned).
@@ -85,14 +88,14 @@ struct Parser {
       o.kind = c;
       if (c == 'w') {
         o.num = num();
-      } else if (c == 'j' || c == 'u') {
+      } else if (c == 'j' || c == 'u' || c == 'g') {
         o.name = num();
       } else if (c == 's') {
         o.name = num();
         ws();
         if (i >= s.size()) { ok = false; break; }
         o.jk = s[i++];
-        if (!strchr("tlhqrfa", o.jk)) ok = false;
+        if (!strchr("tlhqrfanNdD", o.jk)) ok = false;
         ws();
         if (i >= s.size() || s[i] != '[') { ok = false; break; }
         ++i;
@@ -143,9 +146,9 @@ struct Join {
 
 static void runBody(const std::vector<Op>& ops, const Captured& cap);
 
-static void waitJoin(Join& j) {
+static void waitJoin(Join& j, bool viaGet = false) {
   if (j.isFuture) {
-    j.fut.wait();
+    if (viaGet) j.fut.get(); else j.fut.wait();
   } else if (j.ts) {
     j.ts->wait();
   } else if (j.cts) {
@@ -169,16 +172,24 @@ static void runBody(const std::vector<Op>& ops, const Captured& cap) {
           if (kv.second.isFuture && kv.first != o.name) sub[kv.first] = kv.second.fut;
         const std::vector<Op>* body = &o.body;
         int nm = o.name & 63;
-        bool isFut = o.jk == 'f' || o.jk == 'a';
+        bool isFut = strchr("fanNdD", o.jk) != nullptr;
         auto f = [body, sub, nm, isFut]() {
           if (isFut) g_sh->futThread[nm].store(myThread());
           runBody(*body, sub);
           if (isFut) g_sh->futThread[nm].store(0);
         };
-        if (o.jk == 'f' || o.jk == 'a') {
+        if (isFut) {
           j.isFuture = true;
           j.waited = false;
-          j.fut = o.jk == 'f' ? dispenso::async(*g_pool, f) : dispenso::async(*g_pool, std::launch::async | std::launch::deferred, f);
+          auto f2 = f;
+          switch (o.jk) {
+            case 'f': j.fut = dispenso::async(*g_pool, f); break;
+            case 'a': j.fut = dispenso::async(*g_pool, std::launch::async | std::launch::deferred, f); break;
+            case 'd': j.fut = dispenso::Future<void>(std::move(f2), *g_pool, dispenso::kNotAsync, std::launch::deferred); break;
+            case 'D': j.fut = dispenso::Future<void>(std::move(f2), *g_pool, std::launch::async, std::launch::deferred); break;
+            case 'n': j.fut = dispenso::Future<void>(std::move(f2), *g_pool, dispenso::kNotAsync, dispenso::kNotDeferred); break;
+            default: j.fut = dispenso::Future<void>(std::move(f2), *g_pool, std::launch::async, dispenso::kNotDeferred); break;
+          }
         } else if (o.jk == 't') {
           if (!j.ts) j.ts.reset(new dispenso::TaskSet(*g_pool));
           j.waited = false;
@@ -192,9 +203,10 @@ static void runBody(const std::vector<Op>& ops, const Captured& cap) {
         }
         break;
       }
-      case 'j': {
+      case 'j':
+      case 'g': {
         auto it = own.find(o.name);
-        if (it != own.end()) waitJoin(it->second);
+        if (it != own.end()) waitJoin(it->second, o.kind == 'g');
         break;
       }
       case 'u': {
